@@ -305,6 +305,8 @@ class Interp:
         return self.call_native(fn, args, kwargs)
 
     def call_native(self, fn, args, kwargs):
+        if (getattr(fn, "__module__", None) or "").startswith("rvproof."):
+            return fn(*args, **kwargs)  # the engine's own models
         if _shallow_has_sym(args, kwargs):
             ok = fn in _SAFE_NATIVES if _hashable(fn) else False
             if not ok:
